@@ -599,10 +599,10 @@ pub fn check_exact(c: &ExactCase, obs: &mut Obs) -> CheckResult {
 }
 
 fn run(ctx: &Ctx) {
-    let n = ctx.share(ctx.tier.pick(1_200_000, 12_000_000));
+    let n = ctx.share(ctx.tier.pick(1_200_000, 36_000_000));
     let strat = (input_strategy(8, true), feed_strategy()).prop_map(|(input, feed)| BoundsCase { input, feed });
     ctx.run_cases("bounds", n, strat, check_bounds);
-    let n = ctx.share(ctx.tier.pick(1_000_000, 10_000_000));
+    let n = ctx.share(ctx.tier.pick(1_000_000, 30_000_000));
     let strat = spec_strategy()
         .prop_flat_map(|spec| {
             (
